@@ -192,7 +192,7 @@ def run_case(case, ctx):
     beg = rec.of("cg.begin")[0]
     m = beg["n_tridiag"]
     budget_ok = beg["n_tridiag_iter"] >= n and beg["n_iter"] >= n and n <= 12 and dt == torch.float64 and kappa <= 1e3
-    if tuple(beg["rhs"].shape[:-2]) != tuple(batch):
+    if tuple(beg["rhs"].shape[:-2]) != tuple(batch) or spec["cls"] == "BatchRepeat":  # BatchRepeat hands the whole query to its base (whose preconditioner is not the one seen here)
         ctx.stat("cg_ran_on_an_inner_operator(not judged)")
         ctx.ok(query + ".logdet_stochastic_unjudged", None, False)
         return
